@@ -9,6 +9,10 @@ package neo4j_test
 import (
 	"encoding/json"
 	"fmt"
+	"os"
+	"path/filepath"
+	"regexp"
+	"sort"
 	"strings"
 	"testing"
 
@@ -48,6 +52,35 @@ func unquoteCypher(tok string) string {
 	return b.String()
 }
 
+// propertyKeys: EVERY keyword token of the grammar (read from Cypher.g4: the lexer rules spelled letter by letter) in
+// lower case, upper case and capitalised, plus names that are not identifiers at all. The emitter decides per key
+// whether it can be written bare; whatever it decides, the text has to parse again and carry the same key.
+func propertyKeys() ([]string, error) {
+	data, err := os.ReadFile(filepath.Join("..", "..", "cypher", "grammar", "Cypher.g4"))
+	if err != nil {
+		return nil, err
+	}
+	rule := regexp.MustCompile(`(?m)^([A-Z_]+) : ((?:\( '[^']' \| '[^']' \) ?)+);`)
+	letter := regexp.MustCompile(`\( '([^'])' \|`)
+	var out []string
+	seen := map[string]bool{}
+	for _, m := range rule.FindAllStringSubmatch(string(data), -1) {
+		word := ""
+		for _, l := range letter.FindAllStringSubmatch(m[2], -1) {
+			word += l[1]
+		}
+		if len(word) < 2 || seen[word] {
+			continue
+		}
+		seen[word] = true
+		out = append(out, strings.ToLower(word), strings.ToUpper(word), strings.ToUpper(word[:1])+strings.ToLower(word[1:]))
+	}
+	if len(out) < 150 {
+		return nil, fmt.Errorf("only %d keyword spellings found in the grammar", len(out))
+	}
+	return append(out, "name", "a b", "1a", "é", "a`b", "`a`", "a.b", "a-b", "$a", "a'b", "_", "a1_"), nil
+}
+
 // shape renders the operator tree of an expression, dropping parentheses and flattening nothing.
 func shape(e cypher.Expression) string {
 	switch t := e.(type) {
@@ -73,6 +106,17 @@ func shape(e cypher.Expression) string {
 		return "var(" + t.Symbol + ")"
 	case *cypher.Literal:
 		return fmt.Sprintf("lit(%T:%v)", t.Value, t.Value)
+	case cypher.MapLiteral:
+		keys := make([]string, 0, len(t))
+		for k := range t {
+			keys = append(keys, k)
+		}
+		sort.Strings(keys)
+		out := "map{"
+		for _, k := range keys {
+			out += fmt.Sprintf("%q: %s, ", k, shape(t[k]))
+		}
+		return out + "}"
 	case *cypher.Parameter:
 		return "value"
 	case *cypher.KindMatcher:
@@ -333,7 +377,112 @@ func TestVerifBoundedBuilder(t *testing.T) {
 			fail("literal %#v (%T) is emitted as %q, which denotes %#v (%T)", v, v, text, got, got)
 		}
 	}
-	res := map[string]any{"name": "builder", "bound": fmt.Sprintf("%d criteria trees of depth <= 2 over And/Or/Xor/Not, 3 comparisons and 3 kind matchers; %d literal values through emit/parse", len(all), len(literalValues)), "cases": cases, "exhaustive": true, "failures": failures}
+	// ---- property keys keep their name through emit -> parse, in every position a key can be built into ----
+	keys, kerr := propertyKeys()
+	if kerr != nil {
+		fail("harness cannot read the keyword tokens of the grammar: %v", kerr)
+	}
+	for _, key := range keys {
+		type position struct {
+			name  string
+			build func() (*cypher.RegularQuery, error)
+			// pick the expressions that carry the key out of a query
+			pick func(q *cypher.RegularQuery) []cypher.Expression
+		}
+		wherePick := func(q *cypher.RegularQuery) []cypher.Expression {
+			part := q.SingleQuery.SinglePartQuery
+			var out []cypher.Expression
+			if len(part.ReadingClauses) > 0 && part.ReadingClauses[0].Match.Where != nil {
+				out = append(out, part.ReadingClauses[0].Match.Where.Expressions...)
+			}
+			if part.Return != nil {
+				for _, item := range part.Return.Projection.Items {
+					if pi, ok := item.(*cypher.ProjectionItem); ok {
+						out = append(out, pi.Expression)
+					}
+				}
+			}
+			for _, uc := range part.UpdatingClauses {
+				if u, ok := uc.(*cypher.UpdatingClause); ok {
+					switch c := u.Clause.(type) {
+					case *cypher.Set:
+						for _, it := range c.Items {
+							out = append(out, it.Left)
+						}
+					case *cypher.Remove:
+						for _, it := range c.Items {
+							out = append(out, it.Property)
+						}
+					}
+				}
+			}
+			return out
+		}
+		positions := []position{
+			{"lookup in a predicate and in the projection", func() (*cypher.RegularQuery, error) {
+				return query.NewBuilderWithCriteria(query.Where(cypher.NewComparison(query.NodeProperty(key), cypher.OperatorEquals, query.Literal(int64(1)))), query.Returning(query.NodeProperty(key))).Build(false)
+			}, wherePick},
+			{"map literal key", func() (*cypher.RegularQuery, error) {
+				return query.NewBuilderWithCriteria(query.Where(cypher.NewComparison(query.NodeProperty("p"), cypher.OperatorEquals, cypher.MapLiteral{key: query.Literal(int64(1)), "z": query.Literal(int64(2))})), query.Returning(query.Node())).Build(false)
+			}, wherePick},
+			{"set and remove", func() (*cypher.RegularQuery, error) {
+				set := cypher.NewUpdatingClause(&cypher.Set{Items: []*cypher.SetItem{{Left: query.NodeProperty(key), Operator: cypher.OperatorAssignment, Right: query.Literal(int64(1))}}})
+				return query.NewBuilderWithCriteria(query.Where(cypher.NewComparison(query.NodeProperty("p"), cypher.OperatorEquals, query.Literal(int64(1)))), query.Update(set, query.DeleteProperties(query.Node(), key)), query.Returning(query.Node())).Build(false)
+			}, wherePick},
+		}
+		for _, pos := range positions {
+			cases++
+			model, err := pos.build()
+			if err != nil {
+				continue // a key the builder refuses is not emitted at all
+			}
+			text, err := format.RegularQuery(model, false)
+			if err != nil {
+				continue // refused by the emitter: allowed
+			}
+			parsed, err := frontend.ParseCypher(frontend.NewContext(), text)
+			if err != nil {
+				fail("property key %q, %s: the emitted text does not parse: %q: %v", key, pos.name, text, err)
+				continue
+			}
+			want, got := pos.pick(model), pos.pick(parsed)
+			if len(want) == 0 {
+				fail("harness: property key %q, %s: nothing picked from the model", key, pos.name)
+				continue
+			}
+			if len(want) != len(got) {
+				fail("property key %q, %s: the emitted text %q parses to %d key-carrying expressions, the model has %d", key, pos.name, text, len(got), len(want))
+				continue
+			}
+			for i := range want {
+				if shape(want[i]) != shape(got[i]) {
+					fail("property key %q, %s: the emitted text %q parses as %s, the model is %s", key, pos.name, text, shape(got[i]), shape(want[i]))
+					break
+				}
+			}
+		}
+		// the neo4j builder path: what the Neo4j backend is sent
+		cases++
+		nb := queryNeo4j.NewEmptyQueryBuilder()
+		nb.Apply(query.Where(query.Equals(query.NodeProperty(key), 1)))
+		nb.Apply(query.Returning(query.NodeProperty(key)))
+		if err := nb.Prepare(); err == nil {
+			if text, err := nb.Render(); err == nil {
+				if parsed, err := frontend.ParseCypher(frontend.NewContext(), text); err != nil {
+					fail("property key %q, neo4j builder: the rendered text does not parse: %q: %v", key, text, err)
+				} else {
+					want := "prop(var(n)." + key + ")"
+					for _, e := range wherePick(parsed) {
+						if s := shape(e); !strings.Contains(s, want) {
+							fail("property key %q, neo4j builder: the rendered text %q parses as %s, which does not read that key", key, text, s)
+							break
+						}
+					}
+				}
+			}
+		}
+	}
+	res := map[string]any{"name": "builder", "bound": fmt.Sprintf("%d criteria trees of depth <= 2 over And/Or/Xor/Not, 3 comparisons and 3 kind matchers; %d literal values through emit/parse; %d property keys (every keyword token of the grammar in three spellings + %d odd names) in lookup, map-literal, SET/REMOVE position and through the neo4j builder", len(all), len(literalValues), len(keys), 12), "cases": cases, "exhaustive": true, "failures": failures}
 	out, _ := json.Marshal(res)
 	fmt.Println("BOUNDED-RESULT " + string(out))
 	if len(failures) > 0 {
